@@ -199,6 +199,79 @@ theorem copyLoop_ok {a : Args} {src : Nat} {ac ae : List Nat} {t0 : Trig} :
           · refine Or.inr ⟨List.mem_cons_of_mem _ ha, hb, ?_, k, hk⟩
             rw [hh] at hc; simp at hc; omega
 
+theorem vals_dictSet_nodup {d : List (Int × Nat)} {k : Int} {v : Nat} (hn : (d.map (·.2)).Nodup)
+    (hv : v ∉ d.map (·.2)) : ((dictSet d k v).map (·.2)).Nodup := by
+  induction d with
+  | nil => simp [dictSet]
+  | cons kv r ih =>
+    obtain ⟨k', v'⟩ := kv
+    simp only [List.map_cons, List.nodup_cons, List.mem_cons, not_or] at hn hv
+    unfold dictSet
+    split
+    · simp only [List.map_cons, List.nodup_cons]
+      exact ⟨hv.2, hn.2⟩
+    · simp only [List.map_cons, List.nodup_cons]
+      refine ⟨?_, ih hn.2 hv.2⟩
+      intro hm
+      rcases List.mem_map.mp hm with ⟨⟨p, x⟩, hpx, hx⟩
+      simp only at hx; subst hx
+      rcases mem_dictSet hpx with h | ⟨_, h⟩
+      · exact hn.1 (List.mem_map.mpr ⟨(p, x), h, rfl⟩)
+      · exact hv.1 h.symm
+
+theorem vals_dictSet_lt {d : List (Int × Nat)} {k : Int} {v n : Nat} (hd : ∀ x ∈ d.map (·.2), x < n) (hv : v < n) :
+    ∀ x ∈ (dictSet d k v).map (·.2), x < n := by
+  intro x hx
+  rcases List.mem_map.mp hx with ⟨⟨p, y⟩, hpy, hy⟩
+  simp only at hy; subst hy
+  rcases mem_dictSet hpy with h | ⟨_, h⟩
+  · exact hd _ (List.mem_map.mpr ⟨(p, y), h, rfl⟩)
+  · rw [h]; exact hv
+
+theorem copyLoop_vals {a : Args} {src : Nat} {ac ae : List Nat} :
+    ∀ {ps : List Int} {s : State} {d : List (Int × Nat)} {s' : State} {d' : List (Int × Nat)},
+    copyLoop a src ac ae ps s d = .ok (s', d') → (d.map (·.2)).Nodup → (∀ x ∈ d.map (·.2), x < s.heap.length) →
+    (d'.map (·.2)).Nodup ∧ (∀ x ∈ d'.map (·.2), x < s'.heap.length) := by
+  intro ps
+  induction ps with
+  | nil =>
+    intro s d s' d' h hn hl
+    simp only [copyLoop] at h
+    injection h with h; injection h with h1 h2
+    subst h1 h2
+    exact ⟨hn, hl⟩
+  | cons q r ih =>
+    intro s d s' d' h hn hl
+    unfold copyLoop at h
+    split at h
+    · exact ih h hn hl
+    · split at h
+      · cases h
+      · rename_i s1 na h1
+        obtain ⟨t0', ht0, hna, hh, hl', _⟩ := copyOne_ok h1
+        have hlen : s1.heap.length = s.heap.length + 1 := by rw [hh]; simp
+        apply ih h
+        · apply vals_dictSet_nodup hn
+          intro hm
+          have := hl _ hm
+          omega
+        · apply vals_dictSet_lt
+          · intro x hx; have := hl x hx; omega
+          · omega
+
+/-- `sel` resolves in `s` to the trigger object at address `src`, whose current value is `t0` -/
+def Selects (s : State) (sel : Sel) (src : Nat) (t0 : Trig) : Prop :=
+  ∃ ti di, resolve s sel = .ok (ti, di, src) ∧ s.heap[src]? = some t0
+
+/-- the players a call asks copies for: `create_copy_for_players`, by default players 1..8 -/
+def requested (a : Args) : List Int :=
+  match a.players with
+  | some l => l
+  | none => [1, 2, 3, 4, 5, 6, 7, 8]
+
+theorem effPlayers_eq (a : Args) :
+    effPlayers a = if a.gaia && !(requested a).contains 0 then requested a ++ [0] else requested a := rfl
+
 /-- the players that get a copy, in the order of the returned dict -/
 def owners (a : Args) : List Int := ((effPlayers a).filter (· != a.frm)).foldl addKey []
 
@@ -258,5 +331,98 @@ theorem copyPerPlayer_ok {s s' : State} {a : Args} {sel : Sel} {d : List (Int ×
               rw [hheap, List.getElem?_append_right (by simpa using hc)]
               rw [g1, List.getElem?_append_right hc] at hk
               simpa using hk
+
+theorem copyPerPlayer_vals_nodup {s s' : State} {a : Args} {sel : Sel} {d : List (Int × Nat)}
+    (h : copyPerPlayer s a sel = .ok (s', d)) : (d.map (·.2)).Nodup := by
+  unfold copyPerPlayer at h
+  split at h
+  · cases h
+  · split at h
+    · cases h
+    · split at h
+      · cases h
+      · split at h
+        · cases h
+        · rename_i s1 d1 hloop
+          injection h with h; injection h with _ hd
+          subst hd
+          exact (copyLoop_vals hloop (by simp) (by simp)).1
+
+/-- lock predicate of a condition -/
+def lockedC (lk : Lock) (j : Nat) (c : Comp) : Bool := lockedBy lk.lockConds lk.condIds lk.condTypes j c
+/-- lock predicate of an effect -/
+def lockedE (lk : Lock) (j : Nat) (c : Comp) : Bool := lockedBy lk.lockEffs lk.effIds lk.effTypes j c
+
+/-- componentwise description of the rewriting loops: every component that is not locked gets `g` -/
+def rewriteSpec (g : Comp → Comp) (lk : Lock) (t : Trig) : Trig :=
+  { t with conds := t.conds.mapIdx (fun j c => if lockedC lk j c then c else g c),
+           effs := t.effs.mapIdx (fun j c => if lockedE lk j c then c else g c) }
+
+theorem rewriteTrig_alterOf (g : Comp → Comp) (lk : Lock) (t0 t : Trig) (hc : t.conds = t0.conds)
+    (he : t.effs = t0.effs) :
+    rewriteTrig g (alterOf lk t0).1 (alterOf lk t0).2 t = rewriteSpec g lk t := by
+  unfold rewriteTrig rewriteSpec alterOf lockedC lockedE
+  simp only [hc, he, applyAt_alterIdx]
+
+theorem mkCopy_eq (a : Args) (t0 : Trig) (p k : Int) :
+    mkCopy a (alterOf a.lock t0).1 (alterOf a.lock t0).2 t0 p k =
+      rewriteSpec (rwCopy a.flags a.frm p) a.lock { t0 with tid := k, name := t0.name ++ suffix p } := by
+  unfold mkCopy
+  exact rewriteTrig_alterOf _ _ _ _ rfl rfl
+
+theorem replacePlayer_ok {s s' : State} {sel : Sel} {to : Int} {only : Option Int} {is_ it : Bool} {lk : Lock}
+    {x : Nat} (h : replacePlayer s sel to only is_ it lk = .ok (s', x)) :
+    ∃ ti di t0, resolve s sel = .ok (ti, di, x) ∧ s.heap[x]? = some t0 ∧
+      s'.heap = s.heap.modify x (fun _ => rewriteSpec (rwReplace is_ it to only) lk t0) ∧
+      s'.list = s.list ∧ s'.order = s.order := by
+  unfold replacePlayer at h
+  split at h
+  · cases h
+  · rename_i ti di src hres
+    split at h
+    · cases h
+    · rename_i t0 ht0
+      rw [heapGet_ok] at ht0
+      split at h
+      · cases h
+      · injection h with h; injection h with hs' hx
+        subst hx hs'
+        refine ⟨ti, di, t0, hres, ht0, ?_, rfl, rfl⟩
+        simp only [heapModify]
+        apply List.ext_getElem?
+        intro j
+        simp only [List.getElem?_modify]
+        by_cases hj : src = j
+        · subst hj; simp [ht0, rewriteTrig_alterOf]
+        · simp [hj]
+
+/-! ### relating components of a source trigger and of a result trigger -/
+
+/-- `c` is component `j` of `t0` and `c'` is component `j` of `t'` (`isEff`: effects, otherwise conditions) -/
+def Corr (t0 t' : Trig) (isEff : Bool) (j : Nat) (c c' : Comp) : Prop :=
+  if isEff then t0.effs[j]? = some c ∧ t'.effs[j]? = some c' else t0.conds[j]? = some c ∧ t'.conds[j]? = some c'
+
+/-- is the component `c` at index `j` locked by the `TriggerCELock`? -/
+def lockedAt (lk : Lock) (isEff : Bool) (j : Nat) (c : Comp) : Bool :=
+  if isEff then lockedE lk j c else lockedC lk j c
+
+theorem corr_rewriteSpec {g : Comp → Comp} {lk : Lock} {t0 t1 : Trig} (hc : t1.conds = t0.conds)
+    (he : t1.effs = t0.effs) {isEff : Bool} {j : Nat} {c c' : Comp}
+    (h : Corr t0 (rewriteSpec g lk t1) isEff j c c') : c' = if lockedAt lk isEff j c then c else g c := by
+  unfold Corr rewriteSpec at h
+  unfold lockedAt
+  cases isEff
+  · simp only [Bool.false_eq_true, if_false, hc, List.getElem?_mapIdx] at h ⊢
+    obtain ⟨h1, h2⟩ := h
+    rw [h1] at h2
+    simpa using h2.symm
+  · simp only [if_true, he, List.getElem?_mapIdx] at h ⊢
+    obtain ⟨h1, h2⟩ := h
+    rw [h1] at h2
+    simpa using h2.symm
+
+theorem length_rewriteSpec (g : Comp → Comp) (lk : Lock) (t : Trig) :
+    (rewriteSpec g lk t).conds.length = t.conds.length ∧ (rewriteSpec g lk t).effs.length = t.effs.length := by
+  simp [rewriteSpec]
 
 end Aoe.PerPlayer
